@@ -414,7 +414,9 @@ P_ReportPriority(b) ==
     LET end == Min(Nn(b, 0, 4) + 4, Len(b))  offs == RpOffsets(b, 4, end) IN
     { Cnt("priority_descriptors", Len(offs)) } \cup
     UNION { { Nm(Idx("priority_descriptors", i - 1) \o "/current_priority", Fl(b, offs[i], 3, 4)),
-              Nm(Idx("priority_descriptors", i - 1) \o "/rtpi", Fl(b, offs[i] + 2, 7, 16)) } : i \in 1..Len(offs) }
+              Nm(Idx("priority_descriptors", i - 1) \o "/rtpi", Fl(b, offs[i] + 2, 7, 16)),
+              Nm(Idx("priority_descriptors", i - 1) \o "/adlen", Un(b, offs[i] + 6, 2)),
+              Bl(Idx("priority_descriptors", i - 1) \o "/transport_id", Bs(b, offs[i] + 8, Nn(b, offs[i] + 6, 2))) } : i \in 1..Len(offs) }
 Ok_ReportPriority(b) == Len(b) >= 4 /\ Nn(b, 0, 4) + 4 <= Len(b)
                         /\ LET end == Nn(b, 0, 4) + 4  offs == RpOffsets(b, 4, end) IN
                            IF offs = <<>> THEN end = 4 ELSE offs[Len(offs)] + 8 + Nn(b, offs[Len(offs)] + 6, 2) = end
